@@ -706,7 +706,9 @@ impl StreamsState {
                 let Some(stream) = self.send.get_mut(&id).and_then(|s| s.as_mut()) else {
                     continue;
                 };
-                if stream.pending.is_fully_acked() && !stream.fin_pending {
+                // A stream finished without any data may have already sent its FIN
+                let finished = matches!(stream.state, SendState::DataSent { .. });
+                if stream.pending.is_fully_acked() && !stream.fin_pending && !finished {
                     // Stream data can't be acked in 0-RTT, so we must not have sent anything on
                     // this stream
                     continue;
@@ -714,6 +716,7 @@ impl StreamsState {
                 if !stream.is_pending() {
                     self.pending.push_pending(id, stream.priority);
                 }
+                stream.fin_pending |= finished;
                 stream.pending.retransmit_all_for_0rtt();
             }
         }
